@@ -557,7 +557,17 @@ def _strip(fn: ast.FunctionDef) -> ast.FunctionDef:
             self.generic_visit(node)
             if node.value is None:
                 return None
-            return ast.copy_location(ast.Assign(targets=[node.target], value=node.value), node)
+            return self.visit_Assign(ast.copy_location(ast.Assign(targets=[node.target], value=node.value), node))
+
+        def visit_Assign(self, node):  # noqa: N802
+            self.generic_visit(node)
+            v = node.value
+            # `x = np.asarray(x)`: the same array under the same name
+            if len(node.targets) == 1 and isinstance(node.targets[0], ast.Name) and isinstance(v, ast.Call) and \
+                    dotted(v.func) in ("np.asarray", "np.asanyarray") and len(v.args) == 1 and not v.keywords and \
+                    isinstance(v.args[0], ast.Name) and v.args[0].id == node.targets[0].id:
+                return None
+            return node
 
     return ast.fix_missing_locations(P().visit(new))
 
@@ -925,6 +935,15 @@ def _fold_constants(fn: ast.FunctionDef) -> ast.FunctionDef:
 
 class Signature:
     def __init__(self, fn_node: ast.FunctionDef, roles: list[str] | None, lenient: bool = False):
+        from . import poly as _poly
+        prev = _poly.SIGNATURE_MODE[0]
+        _poly.SIGNATURE_MODE[0] = True
+        try:
+            self._build(fn_node, roles, lenient)
+        finally:
+            _poly.SIGNATURE_MODE[0] = prev
+
+    def _build(self, fn_node: ast.FunctionDef, roles: list[str] | None, lenient: bool) -> None:
         self.lenient = lenient
         fn = _strip(fn_node)
         fn.body = _loops_to_comprehensions(fn.body)
@@ -1079,6 +1098,10 @@ class Signature:
         self._collect(fn.body, ())
 
     def _add(self, fact: tuple) -> None:
+        if fact[0] == "set" and fact[2] == "=":
+            import re as _re
+            if _re.sub(r"@[\d_]+", "", fact[3]) == fact[1]:
+                return   # `x = x` (e.g. `x = np.asarray(x)` on an array): not an effect
         self.facts.add(fact)
         self.trace.append(fact)
 
@@ -1192,8 +1215,8 @@ class Signature:
                 self._add(("break", ctx, self._next("break" + str(ctx))))
             elif isinstance(st, ast.Continue):
                 self._add(("continue", ctx, self._next("continue" + str(ctx))))
-            elif isinstance(st, ast.Pass):
-                continue
+            elif isinstance(st, (ast.Pass, ast.Assert)):
+                continue   # an assertion states an invariant; it has no effect when it holds
             elif self.lenient:
                 self._add(("stmt", norm(st), ctx))
             else:
@@ -1265,6 +1288,14 @@ def _tolerate_domain_guards(act: "Signature", ref: "Signature") -> list[str]:
     return sorted(extra)
 
 
+def _copy_sig(sig: "Signature") -> "Signature":
+    import copy as _copy
+    new = _copy.copy(sig)
+    new.facts = set(sig.facts)
+    new.skeleton = list(sig.skeleton)
+    return new
+
+
 def compare(fn: FuncInfo, name: str | None = None) -> tuple[str, list[str]]:
     """-> ('same' | 'different' | 'incomparable', explanation lines)."""
     name = name or fn.name
@@ -1277,6 +1308,10 @@ def compare(fn: FuncInfo, name: str | None = None) -> tuple[str, list[str]]:
         return sorted(tuple("if" if x.startswith("if") else "W" if x.startswith("while") else "L" for x in t) for t in sk)
 
     tolerated = _tolerate_domain_guards(act, ref)
+    widened = _tolerate_domain_guards(ref_copy := _copy_sig(ref), act)
+    if widened:
+        ref = ref_copy
+        tolerated = tolerated + [f"(accepts more than the definition requires: {w})" for w in widened]
     if shape(act.skeleton) != shape(ref.skeleton):
         return "incomparable", [f"loop nest shape {shape(act.skeleton)} differs from the reference {shape(ref.skeleton)}"]
     if sorted(act.skeleton) != sorted(ref.skeleton):
